@@ -31,7 +31,7 @@ for pid in sorted(T):
     })
 m = {
     'version': 1,
-    'setup_cmd': 'cd lean && lake build TJ tjdriver tjspec && cd .. && python3 tools/build.py prod san',
+    'setup_cmd': 'cd lean && lake build TJ tjdriver tjspec tjminic && cd .. && python3 tools/build.py prod san',
     'hooks': {'guard': 'TINYJAMBU_VERIF', 'enable': 'no source hooks are needed: white-box access is by #include of the .c file in the harness and link-time interposition of libc; every build of /repo passes -DTINYJAMBU_VERIF, which no source file tests',
               'baseline_off_cmd': 'cmake -G Ninja -S /repo -B /repo/_build && cmake --build /repo/_build && ctest --test-dir /repo/_build -j8 --timeout 900',
               'source_commits': [], 'add_only': True},
